@@ -100,6 +100,8 @@ theorem rk4Iter_success_at_xend {σ : Type} (P : R4Params K) (f : Rhs K n) (ob :
   · dsimp only at h
     split at h
     · injection h with h; rw [← h] at hs; cases hs
+    split at h
+    · injection h with h; rw [← h] at hs; cases hs
     · split at h
       · rename_i hl
         injection h with h
@@ -199,6 +201,8 @@ theorem rk4Iter_success_exact {σ : Type} (P : R4Params α) (f : Rhs α n) (ob :
   split at h
   · injection h with h; rw [← h] at hs; cases hs
   · dsimp only at h
+    split at h
+    · injection h with h; rw [← h] at hs; cases hs
     split at h
     · injection h with h; rw [← h] at hs; cases hs
     · split at h
